@@ -683,11 +683,12 @@ Proof.
   destruct (negb _); [exact I|].
   rewrite slice_from_ok by lia. cbn [bind].
   pose proof (r_string_total (drop 4 b)) as Hs.
-  destruct (r_string (drop 4 b)) as [[name l]|e|w|] eqn:E; cbn [to_msg_err bind safe] in *; auto.
+  destruct (r_string (drop 4 b)) as [[name l]|e|w|] eqn:E; cbn [to_msg_err to_msg_err_name bind safe] in *; auto;
+    [|destruct (e =? e_neg_size)%Z; exact I].
   apply r_string_bounded in E. rewrite drop_len in E by lia.
   rewrite slice_from_ok by lia. cbn [bind].
   pose proof (r_i32_total (drop (4 + l) b)) as Hi.
-  destruct (r_i32 (drop (4 + l) b)) as [[sq l2]|e|w|]; cbn [to_msg_err bind safe] in *; auto.
+  destruct (r_i32 (drop (4 + l) b)) as [[sq l2]|e|w|]; cbn [to_msg_err to_msg_err_name bind safe] in *; auto.
 Qed.
 
 Lemma r_message_begin_bounded b name ty seq n : r_message_begin b = Ok (name, ty, seq, n) -> n <= len b.
@@ -695,25 +696,27 @@ Proof.
   unfold r_message_begin. destruct (N.ltb_spec (len b) 4) as [H4|H4]; [discriminate|].
   destruct (negb _); [discriminate|].
   rewrite slice_from_ok by lia. cbn [bind].
-  destruct (r_string (drop 4 b)) as [[nm l]|e|w|] eqn:E; cbn [to_msg_err bind]; try discriminate.
+  destruct (r_string (drop 4 b)) as [[nm l]|e|w|] eqn:E; cbn [to_msg_err to_msg_err_name bind]; try discriminate;
+    [|destruct (e =? e_neg_size)%Z; discriminate].
   apply r_string_bounded in E. rewrite drop_len in E by lia.
   rewrite slice_from_ok by lia. cbn [bind].
-  destruct (r_i32 (drop (4 + l) b)) as [[sq l2]|e|w|] eqn:E2; cbn [to_msg_err bind]; try discriminate.
+  destruct (r_i32 (drop (4 + l) b)) as [[sq l2]|e|w|] eqn:E2; cbn [to_msg_err to_msg_err_name bind]; try discriminate.
   apply r_i32_bounded in E2. rewrite drop_len in E2 by lia.
   intros Hx. assert (Hn : n = 4 + l + l2) by congruence. lia.
 Qed.
 
 (* the only errors of the buffer reader *)
-Lemma r_message_begin_errs b e : r_message_begin b = Err e -> e = e_read_message \/ e = e_bad_version.
+Lemma r_message_begin_errs b e : r_message_begin b = Err e ->
+  e = e_read_message \/ e = e_bad_version \/ e = e_neg_size.
 Proof.
   unfold r_message_begin. destruct (N.ltb_spec (len b) 4) as [H4|H4]; [intros Hx; inversion Hx; auto|].
   destruct (negb _); [intros Hx; inversion Hx; auto|].
   rewrite slice_from_ok by lia. cbn [bind].
-  destruct (r_string (drop 4 b)) as [[nm l]|x|w|] eqn:E; cbn [to_msg_err bind]; try discriminate;
-    [|intros Hx; inversion Hx; auto].
+  destruct (r_string (drop 4 b)) as [[nm l]|x|w|] eqn:E; cbn [to_msg_err to_msg_err_name bind]; try discriminate;
+    [|destruct (x =? e_neg_size)%Z; intros Hx; inversion Hx; auto].
   apply r_string_bounded in E. rewrite drop_len in E by lia.
   rewrite slice_from_ok by lia. cbn [bind].
-  destruct (r_i32 (drop (4 + l) b)) as [[sq l2]|x|w|] eqn:E2; cbn [to_msg_err bind]; try discriminate.
+  destruct (r_i32 (drop (4 + l) b)) as [[sq l2]|x|w|] eqn:E2; cbn [to_msg_err to_msg_err_name bind]; try discriminate.
   intros Hx; inversion Hx; auto.
 Qed.
 
